@@ -42,6 +42,8 @@ type c19In struct {
 	Views      map[string]c19Layer `json:"views"`
 	Reqs       []c19Req            `json:"reqs"`
 	Concurrent int                 `json:"concurrent"` // 0: sequential shape; n: n tasks, each runs Reqs rotated by its index
+	dupSeen    string
+	Dup        string              `json:"dup,omitempty"` // a helper name that a second helper file defines again (another text): which wins is the listing's business, but it is the same one every time
 	Ext        string              `json:"ext,omitempty"` // file extension the provider is configured with ("" = the package default)
 }
 
@@ -84,6 +86,14 @@ func c19Gen(r *Rand, tier string) interface{} {
 	}
 	if r.Chance(1, 5) {
 		in.Ext = []string{".tpl.html", ".t", ".tmpl.txt"}[r.Intn(3)] // the extension is a constructor argument
+	}
+	if len(in.Helpers) > 0 && in.Concurrent == 0 && r.Chance(1, 4) {
+		names := []string{}
+		for n := range in.Helpers {
+			names = append(names, n)
+		}
+		sort.Strings(names)
+		in.Dup = names[r.Intn(len(names))]
 	}
 	return in
 }
@@ -196,6 +206,13 @@ func (in *c19In) populate(fs filesystem.Filespace) {
 		}
 	}
 	write("helpers/", in.Helpers)
+	if in.Dup != "" {
+		for _, f := range []string{"helpers/adup", "helpers/zdup"} {
+			if err := fs.WriteFile(f+in.ext(), []byte(fmt.Sprintf(`{{define "%s"}}helper-dup-%s{{end}}`, in.Dup, in.Dup)), filesystem.DefaultUnixFileMode); err != nil {
+				panic(harnessTrouble{"C19 populate: " + err.Error()})
+			}
+		}
+	}
 	if first := in.callTarget(); first != "" {
 		// a helper that *calls* another definition by name: the call must reach the most
 		// specific definition visible in the requesting view, not the helper layer's own
@@ -284,6 +301,16 @@ func c19Check(in *c19In, rq c19Req, s tmplSet, who string) *Failure {
 		if err != nil {
 			return failf("C19/render-error", rq.Kind, "%s %+v: rendering %q failed: %v", who, rq, n, err)
 		}
+		if n == in.Dup && want == in.Helpers[n] && (got == want || got == "helper-dup-"+n) {
+			// two helper files define it: either may win (listing order), but always the same one
+			if in.dupSeen == "" {
+				in.dupSeen = got
+			}
+			if got != in.dupSeen {
+				return failf("C19/not-equivalent", rq.Kind, "%s %+v: %q, defined by two helper files, renders %q now and rendered %q in an earlier request of this run: asking twice does not give equivalent templates", who, rq, n, got, in.dupSeen)
+			}
+			continue
+		}
 		if got != want {
 			return failf("C19/wrong-layer-wins", rq.Kind, "%s %+v: %q renders %q, expected %q (more specific layer overrides)", who, rq, n, got, want)
 		}
@@ -296,7 +323,12 @@ func c19Check(in *c19In, rq c19Req, s tmplSet, who string) *Failure {
 		if err != nil {
 			return failf("C19/render-error", rq.Kind, "%s %+v: rendering \"CALL\" failed: %v", who, rq, err)
 		}
-		if want := "[" + exp[first] + "]"; got != want {
+		if first == in.Dup && exp[first] == in.Helpers[first] {
+			// the called definition is the doubly defined one: either text
+			if got != "["+exp[first]+"]" && got != "[helper-dup-"+first+"]" {
+				return failf("C19/wrong-layer-wins", rq.Kind+"/call", "%s %+v: the helper that calls %q renders %q", who, rq, first, got)
+			}
+		} else if want := "[" + exp[first] + "]"; got != want {
 			return failf("C19/wrong-layer-wins", rq.Kind+"/call", "%s %+v: the helper that calls %q renders %q, expected %q (a call reaches the most specific definition of this request)", who, rq, first, got, want)
 		}
 	}
@@ -305,6 +337,7 @@ func c19Check(in *c19In, rq c19Req, s tmplSet, who string) *Failure {
 
 func c19Run(inI interface{}, env *Env) *Failure {
 	in := inI.(*c19In)
+	in.dupSeen = ""
 	var post *Failure
 	kind := "text"
 	if in.HTML {
@@ -381,7 +414,7 @@ func c19Shrink(inI interface{}) []interface{} {
 	in := inI.(*c19In)
 	var out []interface{}
 	cp := func() *c19In {
-		c := &c19In{HTML: in.HTML, Concurrent: in.Concurrent, Ext: in.Ext, Helpers: c19Layer{}, Layouts: map[string]c19Layer{}, Views: map[string]c19Layer{}, Reqs: append([]c19Req(nil), in.Reqs...)}
+		c := &c19In{HTML: in.HTML, Concurrent: in.Concurrent, Ext: in.Ext, Dup: in.Dup, Helpers: c19Layer{}, Layouts: map[string]c19Layer{}, Views: map[string]c19Layer{}, Reqs: append([]c19Req(nil), in.Reqs...)}
 		for k, v := range in.Helpers {
 			c.Helpers[k] = v
 		}
